@@ -15,7 +15,7 @@ import z3
 
 from pyvc.core import EngineError
 from pyvc.values import Closure
-from pyvc.runner import Unit, Property
+from pyvc.runner import Bounded, Unit, Property
 from pyvc.interp import Interp, LoopSpec, Spec, OBJECT
 from pyvc.models import Namespace, SymSeq, SymSet, TSort, TAtom, TInt, TBool, TTuple, PyList, Ty
 from pyvc.values import Atom, Model, PyObj, PyRaise, ExcVal, ExcClass, Builtin
@@ -556,6 +556,9 @@ def build():
   ]
   return Property(
     'C16', units,
+    bounded=[Bounded('C16/native/routing_cross_check', 'replay/routing_native.py', ['--what', 'rules', '--n', '100'], ['--what', 'rules', '--n', '3000', '--thorough'],
+                     '100 (quick) / 3000 (thorough) generated relay-rules files (1..6 sections from a pattern pool, continue flags in several spellings, default placement, ignored `default = false` sections, destination subsets) x 4 configured subsets x 10 metric names against an independent reading of the file; generated aggregation-rules files x 12 names on both aggregation-aware routers: destinations are the hash destinations of the aggregate names (own name when none), inputs of one aggregate meet',
+                     "loadRelayRules' file parsing is under A-CONF and regex matching is uninterpreted in the proof; this runs parser, regex and router together on CPython")],
     trusted_base=['A-ENGINE', 'A-SMT', 'A-CONF', 'A-LIB(set/list models)'],
     assumptions=[
       "rule.matches(key) and rule.get_aggregate_metric(key) are uninterpreted functions of (rule, key); get_aggregate_metric's memoisation is C08's contract",
